@@ -34,7 +34,9 @@ import (
 	"k8s.io/klog/v2"
 )
 
-var errRetry = errors.New("retry")
+// errRetry makes backoff.Retry try again: it only retries gRPC errors with a
+// retryable code or a backoff.RetriableError, never a plain error.
+var errRetry = backoff.RetriableError("retry")
 
 // PreorderedLogClient is a means of communicating with a single Trillian
 // pre-ordered log tree.
